@@ -336,6 +336,79 @@ func C20(r *drv.Run) {
 		tc := tcs[fp.tc]
 		return &drv.Item{Case: wire.Case{Op: "glob", Pattern: fp.pat, Dir: tc.base}, Check: check(tc.tree, tc.base, fp.pat, tc.base, i%499 == 0)}
 	})
+	// crowded and deep directories: entry counts on both sides of 256, 1024, 2048, 4096 (files and sub-directories mixed)
+	// and a chain of twelve directory levels
+	{
+		sizes := []int{255, 256, 257, 1023, 1024, 1025, 2047, 2048, 2049, 4097}
+		if !quick(r) {
+			sizes = append(sizes, 8193, 20011)
+		}
+		var cps []flatPat
+		var ctcs []tcase
+		for _, n := range sizes {
+			base := filepath.Join(r.WorkDir, "c20", fmt.Sprintf("crowd%d", n))
+			tree := &refNode{dir: true}
+			big := &refNode{name: "big", dir: true}
+			os.MkdirAll(filepath.Join(base, "big"), 0o755)
+			lastDir := ""
+			for i := 0; i < n; i++ {
+				switch {
+				case i%5 == 4:
+					nm := fmt.Sprintf("d%05d", i)
+					os.MkdirAll(filepath.Join(base, "big", nm), 0o755)
+					os.WriteFile(filepath.Join(base, "big", nm, "x.txt"), []byte("x"), 0o644)
+					big.kids = append(big.kids, &refNode{name: nm, dir: true, kids: []*refNode{{name: "x.txt"}}})
+					lastDir = nm
+				case i%7 == 0:
+					nm := fmt.Sprintf("f%05d.dat", i)
+					os.WriteFile(filepath.Join(base, "big", nm), []byte("x"), 0o644)
+					big.kids = append(big.kids, &refNode{name: nm})
+				default:
+					nm := fmt.Sprintf("f%05d.txt", i)
+					os.WriteFile(filepath.Join(base, "big", nm), []byte("x"), 0o644)
+					big.kids = append(big.kids, &refNode{name: nm})
+				}
+			}
+			tree.kids = append(tree.kids, big)
+			deep := &refNode{name: "deep", dir: true}
+			tree.kids = append(tree.kids, deep)
+			cur, curPath := deep, filepath.Join(base, "deep")
+			lit, stars := "deep", "deep"
+			for l := 1; l <= 12; l++ {
+				nm := fmt.Sprintf("s%d", l)
+				k := &refNode{name: nm, dir: true}
+				cur.kids = append(cur.kids, k)
+				cur, curPath = k, filepath.Join(curPath, nm)
+				lit += "/" + nm
+				stars += "/*"
+			}
+			os.MkdirAll(curPath, 0o755)
+			os.WriteFile(filepath.Join(curPath, "leaf.txt"), []byte("x"), 0o644)
+			cur.kids = append(cur.kids, &refNode{name: "leaf.txt"})
+			ctcs = append(ctcs, tcase{tree: tree, base: base})
+			for _, pat := range []string{"big/*.txt", "big/f*", "big/*", "big/*/x.txt", "big/d0*/x.txt", "big/f00001.txt", "big/" + lastDir + "/x.txt", "*/*/x.txt", "big/*9.txt",
+				lit + "/*.txt", stars + "/leaf.txt", lit + "/leaf.txt", stars + "/*"} {
+				cps = append(cps, flatPat{len(ctcs) - 1, pat})
+			}
+		}
+		r.Exec(len(cps), drv.ExecOpts{Batch: 13}, func(i int) *drv.Item {
+			fp := cps[i]
+			tc := ctcs[fp.tc]
+			return &drv.Item{Case: wire.Case{Op: "glob", Pattern: fp.pat, Dir: tc.base}, Check: func(res *wire.Result) {
+				before := r.NViolations()
+				check(tc.tree, tc.base, fp.pat, tc.base, i%29 == 0)(res)
+				if r.NViolations() == before && len(res.Files) > 2048 {
+					r.Count("lists_of_more_than_2048_files", 1)
+				}
+			}}
+		})
+		for _, tc := range ctcs {
+			os.RemoveAll(tc.base)
+		}
+		if r.NViolations() == 0 && r.Counter("lists_of_more_than_2048_files") == 0 {
+			r.Inconclusive("coverage floor: no list of more than 2048 files was compared")
+		}
+	}
 	// the same selection observed end to end: the command line tool run inside the tree with the pattern, alone and
 	// next to flags that have nothing to do with file selection
 	{
